@@ -24,7 +24,7 @@ func init() {
 			"is set inside the critical section of its test; (terminal-frame) the operation goroutine sends complete XOR the subscription error exactly once, from a deferred epilogue registered before dispatch, and " +
 			"the early-error paths of subscribe terminate the id and return; (exit-closes) every `return false` of init and every exit of run is covered by close (directly or through the deferred cancel that " +
 			"closeOnCancel waits for); (tables) every message type the server constructs has a case in both subprotocols' fromMessage, every type run/init dispatch on is produced by a toMessage, and each subprotocol's " +
-			"type constants all appear in its all…MessageTypes list.",
+			"type constants all appear in its all…MessageTypes list. (per-operation-message) the message pointer a goroutine-starting method keeps does not point to a variable that later iterations of the read loop assign again.",
 		NotDecided:  "per-id ordering of frames under all interleavings, stop-versus-complete races, timer behaviour (schedule-level); gorilla/websocket internals",
 		Assumptions: []string{"gorilla/websocket allows one concurrent writer; Conn.Close unblocks readers"},
 	})
